@@ -286,3 +286,27 @@ def load(modname, rebind=None, cut_loops=None, cuts=None, mutate=None, vc=None, 
 
 def set_vc(loaded, vc):
     loaded.ns["_pyvc"] = vc
+
+
+def module_state(loaded):
+    """snapshot of the mutable module-level state of an instrumented module (frame conditions 'modifies nothing outside its result'):
+    {global name: (id, kind, size, keys)} for containers, (id,) for everything else"""
+    out = {}
+    for k, v in loaded.ns.items():
+        if k.startswith("__") or k == "_pyvc":
+            continue
+        if isinstance(v, dict):
+            out[k] = (id(v), "dict", len(v), tuple(sorted(map(repr, v.keys())))[:20])
+        elif isinstance(v, (list, set)):
+            out[k] = (id(v), type(v).__name__, len(v), ())
+        else:
+            out[k] = (id(v),)
+    return out
+
+
+def module_state_changes(before, after):
+    ch = []
+    for k in sorted(set(before) | set(after)):
+        if before.get(k) != after.get(k):
+            ch.append(k)
+    return ch
